@@ -11,7 +11,8 @@ from typing import Any
 
 from fsverif import core
 
-FRESH = ["lazy-import-inside-block", "from-import-extra-target-not-yet-loaded", "command-line-script", "nested-attempts", "body-exception"]
+FRESH = ["lazy-import-inside-block", "from-import-extra-target-not-yet-loaded", "command-line-script", "nested-attempts", "body-exception",
+         "extra-targets-in-a-module-imported-by-another-target", "open-transaction-at-exit-with-db-path"]
 PRES = ["nothing-imported", "connector-imported", "pandas_tools-imported"]
 
 PRELUDE = '''
@@ -92,6 +93,54 @@ except BaseException as e:
     check("script-ran-on-fakes", False, f"{type(e).__name__}: {e} :: {buf.getvalue()[-200:]}")
 import snowflake.connector
 check("connect-restored", type(snowflake.connector.connect).__name__ == "function")
+''',
+    "extra-targets-in-a-module-imported-by-another-target": '''
+sys.path.insert(0, __TARGETS__)
+targets = ["fsverif_helper_e.connect", "fsverif_helper_f.connect", "fsverif_helper_f.write_pandas"]
+for attempt in (1, 2):
+    try:
+        with fakesnow.patch(targets):
+            import fsverif_helper_e as he, fsverif_helper_f as hf
+            try:
+                check(f"fakes-work-inside-{attempt}", use_fakes(hf.connect, hf.write_pandas))
+                c = he.connect(database="db1", schema="s1")
+                check(f"first-module-fake-inside-{attempt}", c.cursor().execute("select 3").fetchall() == [(3,)])
+            except Exception as e:
+                check(f"fakes-work-inside-{attempt}", False, f"{type(e).__name__}: {e}")
+    except Exception as e:
+        check(f"patch-entered-{attempt}", False, f"{type(e).__name__}: {e}")
+    import snowflake.connector, snowflake.connector.pandas_tools as pt
+    check(f"e.connect-restored-{attempt}", he.connect is snowflake.connector.connect and type(he.connect).__name__ == "function")
+    check(f"f.connect-restored-{attempt}", hf.connect is snowflake.connector.connect)
+    check(f"f.write_pandas-restored-{attempt}", hf.write_pandas is pt.write_pandas and type(hf.write_pandas).__name__ == "function")
+''',
+    "open-transaction-at-exit-with-db-path": '''
+import tempfile, snowflake.connector
+for how in ("normal", "exception"):
+    d = tempfile.mkdtemp()
+    kept = []
+    try:
+        with fakesnow.patch(db_path=d):
+            c = snowflake.connector.connect(database="db1", schema="s1")
+            k = c.cursor()
+            k.execute("create table t (id int)")
+            k.execute("begin")
+            k.execute("insert into t values (1)")
+            kept.append(c)
+            if how == "exception":
+                raise KeyError("boom")
+    except KeyError:
+        pass
+    check(f"connect-restored-{how}", type(snowflake.connector.connect).__name__ == "function")
+    try:
+        rows = kept[0].cursor().execute("select count(*) from t").fetchall()
+        check(f"instance-closed-after-{how}-exit", False, f"a connection of the left block still answers: {rows}")
+    except Exception as e:
+        check(f"instance-closed-after-{how}-exit", type(e).__name__ == "DatabaseError", type(e).__name__)
+    with fakesnow.patch(db_path=d):
+        c2 = snowflake.connector.connect(database="db1", schema="s1")
+        rows = c2.cursor().execute("select count(*) from t").fetchall()
+        check(f"uncommitted-row-absent-after-{how}-exit", rows == [(0,)], rows)
 ''',
     "nested-attempts": '''
 import snowflake.connector
